@@ -79,7 +79,10 @@ func debugCmd(mode string, args []string) {
 	} else {
 		keys = prog.SortedFuncKeys()
 	}
-	runner := &check.Runner{Solver: smt.NewSolver(*timeout, ""), Workers: runtime.NumCPU()}
+	sv := smt.NewSolver(*timeout*3, "")
+	sv.RLimit = 40_000_000
+	sv.CandRLimit = 8_000_000
+	runner := &check.Runner{Solver: sv, Workers: runtime.NumCPU()}
 	opt := govc.Options{Property: "DBG", Canary: true}
 	if mode == "sweep" {
 		opt.Sweep, opt.NoPanic, opt.Variants = true, true, true
@@ -104,7 +107,7 @@ func debugCmd(mode string, args []string) {
 				if r.R.Status == "unknown" {
 					fmt.Printf("            outputs: %v\n", r.R.Outputs)
 				}
-				if *dump != "" && r.R.Status != "unsat" {
+				if *dump != "" && (r.R.Status != "unsat" || *verbose) {
 					os.MkdirAll(*dump, 0o755)
 					os.WriteFile(*dump+"/"+smt.Sanitize(r.O.ID)+".smt2", []byte(r.Query), 0o644)
 				}
